@@ -172,9 +172,9 @@ def check_comparison(prog, chk, body, field, variant, bb, idx, stmt, limit_tmp):
         chk.bad("A7.pred", key + ":branch", where, "comparison result is not branched on directly")
         return
     true_t, false_t = R.switch_targets_bool(sw)
-    region = body.reach([true_t])
+    region = R.reach_try_aware(body, [true_t])  # `Err(e)?` never continues
     ok_variant = R.constructs_variant(body, region, ERR, variant)
-    ok_err = R.assigns_result_variant(body, region, "Err")
+    ok_err = R.returns_err(body, region)
     lp = R.loop_containing(body, bb)
     leaves = lp is None or lp[0] not in region
     chk.ob(
@@ -297,12 +297,15 @@ def depth_pairing(prog, chk):
     inc = "svgdx::context::TransformerContext::inc_depth"
     dec = "svgdx::context::TransformerContext::dec_depth"
     n_open = 0
+    decs = {dec} | R.wrappers_of(prog, {dec}, forbid={inc})  # a helper all of whose paths decrement is a decrement
     for body in prog.bodies.values():
+        if body.path in decs:
+            continue
         opens = R.calls_to(body, R.path_is(inc))
         if not opens:
             continue
         chk.touch(body)
-        closes = [(b, R.TERM) for (b, t, c) in R.calls_to(body, R.path_is(dec))]
+        closes = [(b, R.TERM) for (b, t, c) in R.calls_to(body, lambda c: c.path in decs)]
         for (b, t, c) in opens:
             n_open += 1
             where = body.where(b, t.get("line"))
